@@ -689,7 +689,7 @@ func init() {
 		if d, ok := args[0].(*decStr); ok && !d.t.IsConst() {
 			base, bits := args[1].(*Term), args[2].(*Term)
 			if base.IsConst() && (base.val == 10 || base.val == 0) && bits.IsConst() && (bits.val == 64 || bits.val == 0) && d.signed {
-				in.P.noteModelName("strconv.ParseInt(dec(t)) = (t, nil)")
+				in.noteModelName("strconv.ParseInt(dec(t)) = (t, nil)")
 				return tuple{d.t, iface{}}
 			}
 			panic(unsupported("strconv.ParseInt on a decimal token with unusual base/size"))
@@ -702,7 +702,7 @@ func init() {
 	reg("strconv.Atoi", func(fr *frame, fn *ssa.Function, args []value) value {
 		in := fr.in
 		if d, ok := args[0].(*decStr); ok && !d.t.IsConst() && d.signed {
-			in.P.noteModelName("strconv.Atoi(dec(t)) = (t, nil)")
+			in.noteModelName("strconv.Atoi(dec(t)) = (t, nil)")
 			return tuple{d.t, iface{}}
 		}
 		if _, ok := args[0].(*symStr); ok {
@@ -814,7 +814,7 @@ func (in *Interp) fmtOpaque(format value, va value) value {
 			goArgs = append(goArgs, in.goArg(a))
 		}
 	}
-	in.P.noteModelName("fmt.* = real formatting of concrete arguments, opaque placeholders for symbolic ones")
+	in.noteModelName("fmt.* = real formatting of concrete arguments, opaque placeholders for symbolic ones")
 	if f == "" {
 		return fmt.Sprint(goArgs...)
 	}
